@@ -412,9 +412,17 @@ def _exercised(rec: dict, wit: dict) -> None:
     last = {a: None for a in range(1, len(lim) + 1)}
     pt2 = {a: False for a in range(1, len(lim) + 1)}
     cancel_after_exc = {a: False for a in range(1, len(lim) + 1)}
+    in_stop = {a: False for a in range(1, len(lim) + 1)}
 
     def event(e):
         k, a = e["k"], e["a"]
+        if k == "stop_call":
+            in_stop[a] = True
+        elif k == "stop_ret":
+            in_stop[a] = False
+        elif k == "addx" and in_stop.get(a):
+            # antecedent of the late-task clauses: a task added while a stop() is in flight
+            wit["late_task"] += 1
         if k == "enter":
             wit["AtMostOneRun/enter"] += 1
             if last[a] == "exc":
@@ -454,7 +462,6 @@ def _exercised(rec: dict, wit: dict) -> None:
         elif k in ("stop_ret", "wait_ret"):
             if k == "stop_ret":
                 wit["StopReturnsOnlyWhenAllDone/stop_ret"] += 1
-                wit["late_task"] += any(t["s"] == "alive" for t in e["ts"])
             if [x for x in e["res"] if x != "cancelled"]:
                 wit["StopSurfacesErrors/ret_with_error"] += 1
                 wit["extra_error_surfaced"] += any(x.startswith("extra") for x in e["res"])
